@@ -82,3 +82,100 @@ pub fn simulated_order<K: Ord, V>(site: &'static str, mut items: Vec<(K, V)>) ->
     }
     items
 }
+
+/// Drop-in replacements for `std::sync::atomic` types whose every operation is
+/// a [`sync_point`]: files that synchronise through lock-free atomics import
+/// these instead of the `std` types when built with `--cfg datafusion_verif`,
+/// so that a simulator can preempt in front of *every* atomic access — also
+/// accesses that a later change to those files introduces.
+pub mod atomic {
+    pub use std::sync::atomic::Ordering;
+
+    macro_rules! verif_atomic {
+        ($name:ident, $std:ty, $int:ty) => {
+            #[derive(Debug, Default)]
+            pub struct $name($std);
+
+            impl $name {
+                pub const fn new(v: $int) -> Self {
+                    Self(<$std>::new(v))
+                }
+                pub fn into_inner(self) -> $int {
+                    self.0.into_inner()
+                }
+                pub fn get_mut(&mut self) -> &mut $int {
+                    self.0.get_mut()
+                }
+                pub fn load(&self, order: Ordering) -> $int {
+                    super::sync_point("atomic:load");
+                    self.0.load(order)
+                }
+                pub fn store(&self, v: $int, order: Ordering) {
+                    super::sync_point("atomic:store");
+                    self.0.store(v, order)
+                }
+                pub fn swap(&self, v: $int, order: Ordering) -> $int {
+                    super::sync_point("atomic:swap");
+                    self.0.swap(v, order)
+                }
+                pub fn fetch_add(&self, v: $int, order: Ordering) -> $int {
+                    super::sync_point("atomic:fetch_add");
+                    self.0.fetch_add(v, order)
+                }
+                pub fn fetch_sub(&self, v: $int, order: Ordering) -> $int {
+                    super::sync_point("atomic:fetch_sub");
+                    self.0.fetch_sub(v, order)
+                }
+                pub fn fetch_max(&self, v: $int, order: Ordering) -> $int {
+                    super::sync_point("atomic:fetch_max");
+                    self.0.fetch_max(v, order)
+                }
+                pub fn fetch_min(&self, v: $int, order: Ordering) -> $int {
+                    super::sync_point("atomic:fetch_min");
+                    self.0.fetch_min(v, order)
+                }
+                pub fn compare_exchange(
+                    &self,
+                    current: $int,
+                    new: $int,
+                    success: Ordering,
+                    failure: Ordering,
+                ) -> Result<$int, $int> {
+                    super::sync_point("atomic:compare_exchange");
+                    self.0.compare_exchange(current, new, success, failure)
+                }
+                pub fn compare_exchange_weak(
+                    &self,
+                    current: $int,
+                    new: $int,
+                    success: Ordering,
+                    failure: Ordering,
+                ) -> Result<$int, $int> {
+                    super::sync_point("atomic:compare_exchange");
+                    self.0.compare_exchange_weak(current, new, success, failure)
+                }
+                pub fn fetch_update<F>(
+                    &self,
+                    set_order: Ordering,
+                    fetch_order: Ordering,
+                    f: F,
+                ) -> Result<$int, $int>
+                where
+                    F: FnMut($int) -> Option<$int>,
+                {
+                    super::sync_point("atomic:fetch_update");
+                    self.0.fetch_update(set_order, fetch_order, f)
+                }
+            }
+
+            impl From<$int> for $name {
+                fn from(v: $int) -> Self {
+                    Self::new(v)
+                }
+            }
+        };
+    }
+
+    verif_atomic!(AtomicUsize, std::sync::atomic::AtomicUsize, usize);
+    verif_atomic!(AtomicU64, std::sync::atomic::AtomicU64, u64);
+}
